@@ -1,0 +1,41 @@
+//go:build verif
+
+// Contracts for package test, read by /verif/govc (never compiled into normal builds).
+// Property C20, in part: the error predicates and the small helpers the six Marshal*/Unmarshal* helpers are built
+// from. A report is a call of TestingT.Errorf (directly or through testify's assert functions, whose contracts are
+// assumed): reported() says whether the call made at least one.
+
+package test
+
+// ---- which direction a case applies to -------------------------------------------------------------------------------
+//@ func isForMarshal
+//@   ensures [C20.filter] result <==> c == 0 || c == OnlyMarshal
+//@ func isForUnmarshal
+//@   ensures [C20.filter] result <==> c == 0 || c == OnlyUnmarshal
+
+// ---- panics become errors ------------------------------------------------------------------------------------------
+//@ func panicError
+//@   ensures [C20.panic] r == nil ==> (result == nil <==> err == nil)
+//@   ensures [C20.panic] r != nil ==> result != nil
+
+// ---- the error predicates: true exactly when the predicate is met, and a failure is reported exactly otherwise ----------
+//@ func init$1
+//@   ensures [C20.pred] result <==> err != nil
+//@   ensures [C20.pred] reported() <==> !result
+//@ func Error$1
+//@   ensures [C20.pred] result <==> err != nil && errMsg(err) == *text
+//@   ensures [C20.pred] reported() <==> !result
+//@ func ErrorHasPrefix$1
+//@   ensures [C20.pred] result <==> err != nil && hasPrefix(errMsg(err), *prefix)
+//@   ensures [C20.pred] reported() <==> !result
+//@ func ErrorHasSuffix$1
+//@   ensures [C20.pred] result <==> err != nil && hasSuffix(errMsg(err), *suffix)
+//@   ensures [C20.pred] reported() <==> !result
+// ErrorMatch: the report clause is split by cause, because one of the causes is a known finding (DESIGN.md, D9):
+// an error that does not match a valid pattern makes the predicate return false without reporting anything.
+//@ func ErrorMatch$1
+//@   ensures [C20.pred] result <==> err != nil && reMatches(*regexpPattern, errMsg(err))
+//@   ensures [C20.pred] result ==> !reported()
+//@   ensures [C20.pred] err == nil ==> reported()
+//@   ensures [C20.pred] err != nil && !reValid(*regexpPattern) ==> reported()
+//@   ensures [C20.unmatched] err != nil && reValid(*regexpPattern) && !reMatches(*regexpPattern, errMsg(err)) ==> reported()
